@@ -954,31 +954,77 @@ Proof.
   rewrite Hp in T2. destruct T2 as [_ Hc]. unfold slen in T1. rewrite Hlen, <- Hlast by lia. exact T1.
 Qed.
 
-Definition R_cw (s : bc) (t : wb_st) (v : pk_st) : Prop :=
-  RW s t /\ RB s t /\ RKA s v /\ RF s t /\ RT s t v.
+(* a fresh Setup re-establishes the tracking of the store's ids *)
+Lemma RKA_setup_fresh s c resumed w p b : RKA (setup_state s c resumed true w p b) (PkSt w []).
+Proof. split; [reflexivity|intros _; reflexivity]. Qed.
 
-Lemma cw_step_ok s t v e s' v' : INV3 s -> R_cw s t v -> step s e = Some s' -> pk_step v e = Some v' ->
-  exists t', wb_step t e = Some t' /\ R_cw s' t' v'.
+(* the relation: the hypothesis scanner carries a copy of the c16_bound scanner's state *)
+Definition R_cw (s : bc) (t : wb_st) (x : wb_st * pk_st) : Prop :=
+  fst x = t /\ RW s t /\ RB s t /\
+  (wb_spur t = true \/ (RKA s (snd x) /\ RFr s t /\ RTr s (snd x))).
+
+Lemma cw_step_ok s t x e s' x' : INV3 s -> R_cw s t x -> step s e = Some s' -> pkw_step x e = Some x' ->
+  exists t', wb_step t e = Some t' /\ R_cw s' t' x'.
 Proof.
-  intros HI3 (HW & HB & HK & HF & HT) H Hv. pose proof HI3 as [HI HS].
-  destruct (RB_step s t e s' HI HW HB H (fits_from_RT _ _ _ _ _ HK HT H)) as (t' & Hw & HB').
+  intros HI3 (Hx & HW & HB & HC) H Hh. pose proof HI3 as [HI HS]. destruct x as [th v]. cbn [fst snd] in *. subst th.
+  assert (Hfit : wb_spur t = true \/ fits s e).
+  { destruct HC as [Hsp|(HK & _ & HT)]; [left; exact Hsp|]. eapply fits_from_RT; [exact HK|right; exact HT|exact H]. }
+  destruct (RB_step s t e s' HI HW HB H Hfit) as (t' & Hw & HB').
   exists t'. split; [exact Hw|].
-  split; [eapply RW_step; eassumption|]. split; [exact HB'|].
-  split; [eapply RKA_step; eassumption|]. split; [eapply RF_step; eassumption|eapply RT_step; eassumption].
+  pose proof (RW_step _ _ _ _ _ HI HW H Hw) as HW'.
+  unfold pkw_step in Hh. rewrite Hw in Hh.
+  assert (Hcase : wb_spur t = true \/ wb_spur t = false) by (destruct (wb_spur t); [left|right]; reflexivity).
+  destruct Hcase as [Hsp|Hns].
+  - (* the peer is excused *)
+    rewrite Hsp in Hh.
+    destruct (is_setup_ok e) eqn:Ese.
+    + (* a Setup: if fresh, the accounting starts again *)
+      destruct e; try discriminate Ese. destruct r as [|resumed fresh w p b]; [discriminate Ese|].
+      apply step_inv in H.
+      destruct H as [He Ho ->|He Ho ->|He Hq ->|Hc|g' s1 Hg Hl Hr Ho Hp|g' s1 Hg Hl Hr Ho Hnp Hd
+                    |g' s1 Hg Hl Hr Ho Hnp Hnd Ha|g' s1 Hg Hl Hr Ho Hc|He Hc|g' He Ho ->]; try discriminate.
+      * pose proof (INV_learned _ _ Hl HI) as HI1. pose proof (RW_learned _ _ _ Hl HW) as HW1.
+        unfold step_proc in Hp. destruct (pp s1) as [| | | | | |ps| | | | | | | | | | | | | | | | | | | | | |] eqn:Ep;
+          try discriminate Hp; [|destruct ps; discriminate Hp]. cbv beta iota zeta in Hp. unfold guard in Hp.
+        destruct ((0 <? w) && (0 <? p) && (0 <? b)) eqn:Eg; [|discriminate Hp]. injection Hp as <-.
+        cbn [wb_step] in Hw. injection Hw as <-. cbn [wb_spur].
+        destruct fresh.
+        -- cbn [pk_step orb] in Hh. injection Hh as <-. cbn [fst snd].
+           split; [reflexivity|]. split; [exact HW'|]. split; [exact HB'|]. right.
+           split; [apply RKA_setup_fresh|]. split; [exact (RF_setup s1 t c resumed true w p b HI1 HW1 Ep)|].
+           eapply (RT_setup s1 v c g resumed true w p b _ HI1 Ep Eg); [reflexivity|left; reflexivity].
+        -- assert (Ex : fst x' = WbSt w (wb_fl t) (wb_spur t)).
+           { destruct (pk_step v (ESetup g (SOk resumed false w p b))); injection Hh as <-; reflexivity. }
+           split; [exact Ex|]. split; [exact HW'|]. split; [exact HB'|]. left. exact Hsp.
+      * exfalso. unfold step_deq in Hd. destruct (dp s1); discriminate Hd.
+      * pose proof (step_ack_sum _ _ _ Ha) as (_ & _ & He). contradiction.
+      * apply step_cleanup_sum in Hc as (He & _). contradiction.
+    + assert (Ex : fst x' = t') by (destruct (pk_step v e); injection Hh as <-; reflexivity).
+      split; [exact Ex|]. split; [exact HW'|]. split; [exact HB'|]. left. eapply wb_spur_mono; eassumption.
+  - (* the peer has behaved so far: the hypothesis is in force *)
+    destruct HC as [C|(HK & HF & HT)]; [congruence|]. rewrite Hns in Hh.
+    destruct (pk_step v e) as [v'|] eqn:Ev; [|discriminate Hh]. injection Hh as <-. cbn [fst snd].
+    split; [reflexivity|]. split; [exact HW'|]. split; [exact HB'|].
+      pose proof (RKA_step _ _ _ _ _ HI3 HK H Ev) as HK'.
+      pose proof (RF_step _ _ _ _ _ _ _ HI3 HK HW (or_intror HF) H Hw Ev) as HF'.
+      pose proof (RT_step _ _ _ _ _ _ _ HI3 HK (or_intror HF) (or_intror HT) H Hw Ev) as HT'.
+      destruct HF' as [Hsp|HF']; [left; exact Hsp|]. destruct HT' as [Hsp|HT']; [left; exact Hsp|].
+      right. split; [exact HK'|split; assumption].
 Qed.
 
-Lemma R_cw_init : R_cw bc_init (WbSt 0 [] false) (PkSt 0 []).
+Lemma R_cw_init : R_cw bc_init (WbSt 0 [] false) (WbSt 0 [] false, PkSt 0 []).
 Proof.
-  split; [split; reflexivity|]. split; [right; cbn; split; [lia|exact I]|].
+  split; [reflexivity|]. split; [split; reflexivity|]. split; [right; cbn; split; [lia|exact I]|]. right.
   split; [split; [reflexivity|intros C; exfalso; apply C; reflexivity]|].
-  split; right; constructor; cbn; first [apply NoDup_nil|exact I|lia|intros ? C; discriminate C|intros ? []|intros C; exfalso; apply C; reflexivity].
+  split; constructor; cbn; first [apply NoDup_nil|exact I|lia|intros ? C; discriminate C|intros ? []|intros C; exfalso; apply C; reflexivity].
 Qed.
 
-(* the bound, for every accepted trace on which the window does not shrink between the
-   connections of a session (and ids are not re-allocated while still stored) *)
+(* the bound, for every accepted trace on which — as long as the peer has not acknowledged an
+   id not in flight — the window does not shrink between the connections of a session (and
+   ids are not re-allocated while still stored) *)
 Theorem c16_bound_const_window_holds :
   forall es s, bc_run es = Some s -> c16_window_const es = true -> c16_bound es = true.
-Proof. exact (scan2_sound wb_step pk_step INV3 R_cw INV3_init INV3_step cw_step_ok _ _ R_cw_init). Qed.
+Proof. exact (scan2_sound wb_step pkw_step INV3 R_cw INV3_init INV3_step cw_step_ok _ _ R_cw_init). Qed.
 
 (* token conservation under the same hypothesis: in the state reached,
    in flight + free slots + slot held by the dequeuer + slot being returned <= W
@@ -991,9 +1037,9 @@ Theorem c16_conservation_const_window_holds : forall es s,
       (cw s <> 0 -> N.of_nat (length (s_out (sess s))) <= cw s))).
 Proof.
   intros es s Hrun Hh.
-  destruct (scan2_rel wb_step pk_step INV3 R_cw INV3_step cw_step_ok es bc_init _ _ s INV3_init R_cw_init Hrun Hh)
-    as (t & v & E & _ & HB & [_ Hlast] & _ & HT).
+  destruct (scan2_rel wb_step pkw_step INV3 R_cw INV3_step cw_step_ok es bc_init _ _ s INV3_init R_cw_init Hrun Hh)
+    as (t & x & E & _ & _ & HB & HC).
   exists t. split; [exact E|].
-  destruct HB as [Hs|(Hi & _)]; [left; exact Hs|]. destruct HT as [Hs|[T1 _ _]]; [left; exact Hs|right].
+  destruct HB as [Hs|(Hi & _)]; [left; exact Hs|]. destruct HC as [Hs|([_ Hlast] & _ & [T1 _ _])]; [left; exact Hs|right].
   split; [exact Hi|]. intros Hc. rewrite <- (Hlast Hc). exact T1.
 Qed.
